@@ -185,6 +185,15 @@ def run_c02(tier, seed, replay=None):
         if rnd.random() < 0.3:
             rnd.shuffle(goals)
         cases.append(mk_case([], ["q", "r"], goals, ground_check=True))
+    # a disequality between two variables that are then aliased THROUGH a third one (every orientation, every order)
+    for grp2 in range(n // 8):
+        ne = rnd.choice([["neq", "q", "r"], ["neq", "r", "q"], ["neq", "q", ["list", "r", 1]]])
+        e1 = rnd.choice([["eq", "r", "t"], ["eq", "t", "r"]])
+        e2 = rnd.choice([["eq", "t", "q"], ["eq", "q", "t"]]) if ne[2] in ("q", "r") else rnd.choice([["eq", "q", ["list", "t", 1]], ["eq", ["list", "t", 1], "q"]])
+        extra = [rnd.choice([["eq", "t", 2], ["neq", "t", 2]])] if rnd.random() < 0.3 else []
+        pool = [ne, e1, e2] + extra
+        for pm in itertools.permutations(pool):
+            cases.append(mk_case([], ["q", "r", "t"], list(pm), perm_group=10000 + grp2, ground_check=False))
     # lists with a variable tail against lists of a DIFFERENT written length: they differ only as long as the tail is open
     for _ in range(n // 3):
         k = rnd.randint(1, 2)
@@ -441,6 +450,19 @@ def run_c04(tier, seed, replay=None):
             pool = [["dom", "q", ["v"] + sparse], ["dom", "r", ["v"] + dense], rnd.choice([["eq", "q", "r"], ["eq", "r", "q"]]), third]
         perms = list(itertools.permutations(pool))
         for pm in (perms if len(perms) <= 8 else rnd.sample(perms, 8)):
+            cases.append(mk_case([], ["q", "r"], list(pm), perm_group=grp, mode="bag"))
+        grp += 1
+    # diseqfd / ltfd between a sparse and an interval domain that share only a bound of the interval, in every order (posted
+    # before or after the domains): the constraint must not be dropped as "already true"
+    for _ in range(n // 3):
+        lo = rnd.randint(0, 3); hi = lo + rnd.randint(2, 3)
+        sp = sorted({rnd.choice([lo - 2, lo - 1]), rnd.choice([hi, lo])} | ({hi + 2} if rnd.random() < 0.4 else set()))
+        rel = rnd.choice([["rel", "diseqfd", "q", "r"], ["rel", "diseqfd", "r", "q"], ["rel", "ltfd", "q", "r"], ["rel", "ltefd", "r", "q"]])
+        pool = [["dom", "q", ["v"] + sp], ["dom", "r", ["i", lo, hi]], rel]
+        if rnd.random() < 0.4:
+            pool.append(rnd.choice([["rel", "diseqfd", "r", lo + 1], ["neq", "q", lo - 1]]))
+        perms = list(itertools.permutations(pool))
+        for pm in (perms if len(perms) <= 6 else rnd.sample(perms, 8)):
             cases.append(mk_case([], ["q", "r"], list(pm), perm_group=grp, mode="bag"))
         grp += 1
     # distinctfd with elements bound by == in any order (larger value first included), the last element getting its domain (or
